@@ -16,13 +16,14 @@ SkipWs(s, i) == IF IsWs(At(s, i)) THEN SkipWs(s, i + 1) ELSE i
 RECURSIVE SkipWsU(_, _)                                         \* whitespace or VB line continuation "_"
 SkipWsU(s, i) == IF IsWs(At(s, i)) \/ At(s, i) = 95 THEN SkipWsU(s, i + 1) ELSE i
 
-\* a quoted literal at i whose content is free of quote characters and backslashes
+\* a quoted literal at i whose content is free of quote characters and - between double quotes, where it starts an escape - backslashes
+\* (between single quotes a backslash is an ordinary character: 'C:\Users\Public\' is a complete literal)
 Lit(s, i) ==
   LET q == At(s, i)
       close == {j \in (i+1)..Len(s) : s[j] = q}
       j == IF close = {} THEN 0 ELSE CHOOSE x \in close : \A y \in close : x <= y
       body == SubSeq(s, i + 1, j - 1)
-      clean == \A k \in 1..Len(body) : body[k] \notin {SQ, DQ, BT, BS}
+      clean == \A k \in 1..Len(body) : body[k] \notin (IF q = SQ THEN {SQ, DQ, BT} ELSE {SQ, DQ, BT, BS})
   IN IF (q = SQ \/ q = DQ) /\ j > 0 /\ clean THEN [ok |-> TRUE, body |-> body, next |-> j + 1]
      ELSE [ok |-> FALSE, body |-> <<>>, next |-> i]
 
